@@ -664,31 +664,41 @@ Definition all_array (ty : option (list itype)) : bool :=
   | _ => false
   end.
 
-(* the array keyword group of a fragment schema.  [wa] = "with arrays": when false no array keyword may occur;
-   when true: `items` absent or a SINGLE schema, minItems / maxItems / uniqueItems, no additionalItems, and the
-   group is guarded by "type":"array" (tuples: see findings F5/F7 and notes/C09.md) *)
-Definition arr_cond (wa : bool) (ty : option (list itype)) (ik : items_kind) (items : list schema)
+(* the array keyword group of a fragment schema.  [wa] = "with arrays": when false no array keyword may occur.
+   When true, ONE of two modes for the whole pair / list ([tm] = tuple mode):
+     tm = false: `items` absent or a SINGLE schema, no additionalItems;
+     tm = true:  `items` absent or a TUPLE, additionalItems absent or a schema of the fragment, and no explicit
+                 zero bound (`minItems: 0` / `maxItems: 0`: with maxItems 0 a conflict at a later tuple position
+                 REPLACES maxItems by that position — a widening, C09_merge_exact_refuted_maxitems0);
+   in both modes minItems / maxItems / uniqueItems, and the group is guarded by "type":"array".
+   A single `items` schema never meets a tuple (finding C09-F7: the tuple's additionalItems merged with the single
+   schema by `?` makes the whole array never). *)
+Definition nonzero (o : option N) : bool := match o with Some 0%N => false | _ => true end.
+
+Definition arr_cond (wa tm : bool) (ty : option (list itype)) (ik : items_kind) (items : list schema)
            (ai : option schema) (mni mxi : option N) (uq : bool) : bool :=
-  is_none ai
-  && match ik, items with
-     | ItemsAbsent, [] => true
-     | ItemsSingle, [_] => wa
-     | _, _ => false
-     end
+  match ik, items with
+  | ItemsAbsent, [] => is_none ai
+  | ItemsSingle, [_] => wa && negb tm && is_none ai
+  | ItemsTuple, _ => wa && tm
+  | _, _ => false
+  end
+  && (negb tm || (nonzero mni && nonzero mxi))
   && (arr_absent ik ai mni mxi uq || (wa && all_array ty)).
 
-Fixpoint obj_frag (wa : bool) (tx : itype) (s : schema) : bool :=
+Fixpoint obj_frag (wa tm : bool) (tx : itype) (s : schema) : bool :=
   match s with
   | SBool _ => true
   | SObj ty fmt enum cst nv sv ik items ai mni mxi uq props req ap mnp mxp allo anyo oneo no ref _ _ =>
       notype tx ty && is_none fmt && simple_enum enum && opt_all simple_json cst
       && numv_is_none nv && strv_is_none sv
-      && arr_cond wa ty ik items ai mni mxi uq && forallb (obj_frag wa tx) items
+      && arr_cond wa tm ty ik items ai mni mxi uq && forallb (obj_frag wa tm tx) items
+      && opt_all (obj_frag wa tm tx) ai
       && is_none anyo && is_none oneo && is_none no && is_none ref
       && (obj_absent props req ap mnp mxp || all_object ty)
       && uniq_keys props
-      && forallb (fun kv => obj_frag wa tx (snd kv)) props && opt_all (obj_frag wa tx) ap
-      && opt_all (forallb (obj_frag wa tx)) allo
+      && forallb (fun kv => obj_frag wa tm tx (snd kv)) props && opt_all (obj_frag wa tm tx) ap
+      && opt_all (forallb (obj_frag wa tm tx)) allo
   end.
 
 (* JSON instances as serde_json produces them: object keys are unique (Spec/Valid.v assumes it too) *)
